@@ -46,6 +46,11 @@ MODELS = {
     'xxz1': (lambda L, p: ptn.heisenberg_xxz_spin1_mpo(L, *p), [1, 0, -1]),
     'bose3': (lambda L, p: ptn.bose_hubbard_mpo(3, L, *p), [0, 1, 2]),
     'ising': (lambda L, p: ptn.ising_mpo(L, *p), [0, 0]),
+    # classical / commuting-term models: FEW DISTINCT eigenvalues in every local effective operator (the site-step Krylov space breaks down early, while the
+    # bond problem -- a compression, whose eigenvalues interlace -- can need more vectors)
+    'ising-zz': (lambda L, p: ptn.ising_mpo(L, p[0], 0.0, 0.0), [0, 0]),
+    'ising-zz+h': (lambda L, p: ptn.ising_mpo(L, p[0], p[1], 0.0), [0, 0]),
+    'xxz-zz': (lambda L, p: ptn.heisenberg_xxz_mpo(L, 0.0, p[1], p[2]), [1, -1]),
 }
 
 
@@ -78,7 +83,7 @@ for _name, (_mk, _qd) in MODELS.items():
             continue
         for _q in sector_list(_qd, _L):
             CASES.append((_name, _L, _q))
-QUICK_CASES = [c for c in CASES if c[1] <= 4 or (c[1] == 6 and c[0] in ('xxz', 'nn2q')) or (c[1] in (5, 6) and c[0] == 'lr2q')]      # L = 6, d = 2: first size whose central bonds mix left- and right-enumerated sectors
+QUICK_CASES = [c for c in CASES if c[1] <= 4 or (c[1] == 6 and c[0] in ('xxz', 'nn2q')) or (c[1] in (5, 6) and c[0] == 'lr2q') or (c[1] == 6 and c[0] in ('ising-zz', 'ising-zz+h', 'xxz-zz'))]      # L = 6, d = 2: first size whose central bonds mix left- and right-enumerated sectors
 
 
 def make_exact(cases):
